@@ -306,6 +306,12 @@ def congruence_comparer(comparer_params_eval, student_eval, utils):
 
     expected_reduced = expected % modulus
     input_reduced = student_eval % modulus
+    # Compare on the circle, not on the line: modulo 2*pi, 2*pi - 0.001 lies
+    # within 0.002 of 0.001. Use the representative of the input nearest to expected.
+    if input_reduced - expected_reduced > abs(modulus) / 2:
+        input_reduced -= abs(modulus)
+    elif expected_reduced - input_reduced > abs(modulus) / 2:
+        input_reduced += abs(modulus)
     return utils.within_tolerance(expected_reduced, input_reduced)
 
 def eigenvector_comparer(comparer_params_eval, student_eval, utils):
